@@ -76,6 +76,12 @@ def candidates(world, pre):
                 out.append({"do": "fault", "kind": "use_destroyed", "how": how, "on": [n], "entry": entry, **extra})
             if entry != "state":
                 out.append({"do": "fault", "kind": "use_destroyed", "how": "combine", "on": [n], "entry": entry, **extra})
+            if entry == "ce":
+                for other in live:
+                    if other != n and actions._in_class(world, other, extra["ce"]):
+                        out.append({"do": "fault", "kind": "use_destroyed", "how": "measure2", "on": [n, other], "entry": "ce", **extra})
+                        out.append({"do": "fault", "kind": "use_destroyed", "how": "op2", "on": [n, other], "entry": "ce", **extra})
+                        break
     ok = []
     for r in out:
         a, _ = actions.applicable(world, pre, r)
